@@ -10,6 +10,36 @@ def is_sv(x):
     return isinstance(x, SV)
 
 
+def rd(arr, i):
+    """select with syntactic read-over-write simplification (keeps trigger terms small)"""
+    pend = []
+    while z3.is_app(arr) and arr.decl().kind() == z3.Z3_OP_STORE:
+        j = arr.arg(1)
+        if j.eq(i):
+            res = arr.arg(2)
+            break
+        if z3.is_int_value(j) and z3.is_int_value(i) and j.as_long() != i.as_long():
+            arr = arr.arg(0)
+            continue
+        if len(pend) >= 8:
+            res = arr[i]
+            break
+        # undetermined aliasing: read-over-write as an explicit ite, so E-matching sees the read of the old array
+        pend.append((j, arr.arg(2)))
+        arr = arr.arg(0)
+    else:
+        res = arr[i]
+    for j, v in reversed(pend):
+        res = z3.If(i == j, v, res)
+    return res
+
+
+def _ix(i, off):
+    if z3.is_int_value(off) and off.as_long() == 0:
+        return i
+    return i + off
+
+
 class ExprMixin:
     # ------------------------------------------------------------------ coercions
     def to_real(self, v):
@@ -125,12 +155,12 @@ class ExprMixin:
         if ty.kind == "opt":
             arr = st.harr(key, z3.ArraySort(z3.IntSort(), sort_of(ty.arg)))
             narr = st.harr(key + "?", z3.ArraySort(z3.IntSort(), z3.BoolSort()))
-            v = SV(ty, arr[ref], narr[ref])
+            v = SV(ty, rd(arr, ref), rd(narr, ref))
             if ty.arg.kind in ("ref", "list") and not spec:
                 st.assume(z3.Implies(z3.Not(v.aux), z3.And(v.t >= 1, v.t < st.alloc())))
             return v
         arr = st.harr(key, z3.ArraySort(z3.IntSort(), sort_of(ty)))
-        v = SV(ty, arr[ref])
+        v = SV(ty, rd(arr, ref))
         if ty.kind in ("ref", "list") and not spec and not st.bound:
             st.assume(z3.And(v.t >= 1, v.t < st.alloc()))
         return v
@@ -161,11 +191,14 @@ class ExprMixin:
         s = sort_of(ety)
         return st.harr(self.content_key(ety), z3.ArraySort(z3.IntSort(), z3.ArraySort(z3.IntSort(), s)))
 
-    def len_arr(self, st):
-        return st.harr("$len", z3.ArraySort(z3.IntSort(), z3.IntSort()))
+    def len_key(self, ety):
+        return "$len." + elem_key(ety)
+
+    def len_arr(self, st, ety):
+        return st.harr(self.len_key(ety), z3.ArraySort(z3.IntSort(), z3.IntSort()))
 
     def list_len(self, lst, st, spec=False):
-        l = self.len_arr(st)[lst.t]
+        l = rd(self.len_arr(st, lst.ty.arg), lst.t)
         if not spec and not st.bound:
             st.assume(l >= 0)
         return l
@@ -174,7 +207,7 @@ class ExprMixin:
         ety = lst.ty.arg
         if ety.kind == "any":
             raise Unsupported("element type of list unknown")
-        t = self.content_arr(ety, st)[lst.t][idx]
+        t = rd(rd(self.content_arr(ety, st), lst.t), idx)
         v = SV(ety, t)
         if ety.kind in ("ref", "list") and not spec and not st.bound:
             st.assume(z3.And(t >= 1, t < st.alloc()))
@@ -185,7 +218,7 @@ class ExprMixin:
         ca = self.content_arr(ety, st)
         st.hset(self.content_key(ety), z3.Store(ca, lst.t, arr))
         if length is not None:
-            st.hset("$len", z3.Store(self.len_arr(st), lst.t, length))
+            st.hset(self.len_key(ety), z3.Store(self.len_arr(st, ety), lst.t, length))
 
     def new_list(self, ety, arr, length, st):
         r = st.new_ref()
@@ -195,7 +228,7 @@ class ExprMixin:
                 arr = self.ctx.fresh("emptyarr", z3.ArraySort(z3.IntSort(), sort_of(ety)))
             self.list_set_content(lst, arr, length, st)
         else:
-            st.hset("$len", z3.Store(self.len_arr(st), r, length))
+            raise Unsupported("list of unknown element type (declare the variable in the contract's locals)")
         return lst
 
     def seq_of(self, v, st, spec=False):
@@ -206,7 +239,7 @@ class ExprMixin:
             ety = v.ty.arg
             if ety.kind == "any":
                 raise Unsupported("element type of list unknown")
-            return ety, self.content_arr(ety, st)[v.t], z3.IntVal(0), self.list_len(v, st, spec)
+            return ety, rd(self.content_arr(ety, st), v.t), z3.IntVal(0), self.list_len(v, st, spec)
         if v.ty.kind == "tuple":
             items = list(v.t)
             if not items:
@@ -291,8 +324,10 @@ class ExprMixin:
         if spec:
             return mk_tuple(items)
         if not items:
-            hint = self.list_type_hint(node)
-            return self.new_list(hint if hint else Ty("any"), None, z3.IntVal(0), st)
+            hint = self.pending_list_type
+            if hint is None or hint.kind != "list":
+                raise Unsupported("empty list literal of unknown element type (declare the target in the contract's locals)")
+            return self.new_list(hint.arg, None, z3.IntVal(0), st)
         ety = items[0].ty
         if any(i.ty.kind == "real" for i in items) and all(i.ty.is_num for i in items):
             ety = REAL
@@ -393,6 +428,8 @@ class ExprMixin:
                 self.ctx.float_ops.add((self.ctx.funcname, line, "Div"))
                 if self.check_div:
                     self.ctx.oblige(st, "safe:div", yr != 0, text="division by zero")
+            if self.float_div == "uninterpreted":
+                return SV(REAL, self.fdiv_fun()(xr, yr))
             return SV(REAL, xr / yr)
         if isinstance(op, ast.FloorDiv):
             if ty.kind == "int":
@@ -409,6 +446,10 @@ class ExprMixin:
         if isinstance(op, ast.Pow):
             return self.power(a, b, st, spec)
         raise Unsupported("operator %s" % op.__class__.__name__)
+
+    def fdiv_fun(self):
+        self.ctx.models_used.add("float division kept uninterpreted: fdiv(x, y) is only a function of its arguments")
+        return z3.Function("fdiv", z3.RealSort(), z3.RealSort(), z3.RealSort())
 
     def py_floordiv(self, x, y):
         # python floors; SMT-LIB div keeps the remainder non-negative (differs for negative divisors)
@@ -550,11 +591,11 @@ class ExprMixin:
             if e1.kind in ("ref", "list") or e2.kind in ("ref", "list"):
                 if spec:
                     i = self.ctx.fresh("i", z3.IntSort())
-                    return z3.And(l1 == l2, z3.ForAll([i], z3.Implies(z3.And(0 <= i, i < l1), arr1[i + off1] == arr2[i + off2])))
+                    return z3.And(l1 == l2, z3.ForAll([i], z3.Implies(z3.And(0 <= i, i < l1), arr1[_ix(i, off1)] == arr2[_ix(i, off2)])))
                 raise Unsupported("== on lists of objects")
             i = self.ctx.fresh("i", z3.IntSort())
-            x = SV(e1, arr1[i + off1])
-            y = SV(e2, arr2[i + off2])
+            x = SV(e1, arr1[_ix(i, off1)])
+            y = SV(e2, arr2[_ix(i, off2)])
             return z3.And(l1 == l2, z3.ForAll([i], z3.Implies(z3.And(0 <= i, i < l1), self.equal(x, y, st, spec))))
         if ka == "ref" and kb == "ref":
             if spec:
@@ -593,14 +634,14 @@ class ExprMixin:
                 con = self.reg.method_contract(e.arg, "__eq__")
                 if con is not None and con.pure and con.returns:
                     saved = dict(st.bound)
-                    st.bound["_a"] = SV(e, arr[i + off])
+                    st.bound["_a"] = SV(e, arr[_ix(i, off)])
                     st.bound["_b"] = item
                     try:
                         body = self.truthy(self.spec_text(con.returns.replace("self", "_a").replace("other", "_b"), st), st)
                     finally:
                         st.bound = saved
-                    return z3.Exists([i], z3.And(0 <= i, i < ln, z3.Or(arr[i + off] == item.t, body)))
-            x = SV(e, arr[i + off])
+                    return z3.Exists([i], z3.And(0 <= i, i < ln, z3.Or(arr[_ix(i, off)] == item.t, body)))
+            x = SV(e, arr[_ix(i, off)])
             return z3.Exists([i], z3.And(0 <= i, i < ln, self.equal(x, item, st, True)))
         raise Unsupported("membership in %r" % (container.ty,))
 
@@ -705,7 +746,7 @@ class ExprMixin:
         if k in ("list", "seq"):
             e, arr, off, ln = self.seq_of(base, st, spec)
             idx = self.norm_index(sl, ln, st, spec)
-            v = SV(e, arr[idx + off])
+            v = SV(e, rd(arr, _ix(idx, off)))
             if e.kind in ("ref", "list") and not spec and not st.bound:
                 st.assume(z3.And(v.t >= 1, v.t < st.alloc()))
             return v
